@@ -284,7 +284,14 @@ def r19_4(run):
     run.ob('R19.4', la, la.node, 'exactly one process is spawned with that protocol', ok, slot='spawn-once', message='%d spawnProcess calls' % len(sp))
 
 
+def r19_5(run):
+    us = [PU(run, '_tor_connected'), run.idx.unit(MOD + '.launch')]
+    k = dropped_deferreds(run, 'R19.5', us, 'launch')
+    run.floor('R19.5', 'suspension points in launch/_tor_connected', k, 6)
+
+
 RULES = [
+    ('R19.5', 'no dropped Deferred in launch/_tor_connected', r19_5),
     ('R19.1', 'guard-and-latch: launch waiters fired only in _maybe_notify_connected, once; who-may-touch the waiter list', r19_1),
     ('R19.2', 'success only in _status_client at PROGRESS=100 of a BOOTSTRAP event, timeout cancelled first; listener and ownership commands after post_bootstrap; one connection attempt', r19_2),
     ('R19.3', 'timeout: signal TERM (or drop the dead connection) then announce failure; process exit announces failure on every path', r19_3),
@@ -294,6 +301,7 @@ RULES = [
 from ..selftest import M  # noqa: E402
 F = 'txtorcon/controller.py'
 MUTANTS = [
+    M('takeownership-not-awaited', F, "        yield self.tor_protocol.queue_command('TAKEOWNERSHIP')", "        self.tor_protocol.queue_command('TAKEOWNERSHIP')", ['R19.5', 'R19.2']),
     M('no-latch', F, "            d.callback(arg)\n        self._connected_listeners = None", "            d.callback(arg)\n        self._connected_listeners = []", ['R19.1']),
     M('timeout-fires-directly', F, "        fail = Failure(RuntimeError(\"timeout while launching Tor\"))\n        self._maybe_notify_connected(fail)", "        fail = Failure(RuntimeError(\"timeout while launching Tor\"))\n        for d in self._connected_listeners or []:\n            d.callback(fail)", ['R19.1', 'R19.3']),
     M('success-at-90', F, "        if prog == 100:\n            if self._timeout_delayed_call:", "        if prog >= 90:\n            if self._timeout_delayed_call:", ['R19.2']),
